@@ -56,12 +56,52 @@ def Item.authBearing : Item → Bool
   | .legacy _ _ p => p
   | _ => false
 
+/-- ghost record: what the server offered / confirmed on the CURRENT connection attempt.  Never
+    read by the machine itself; it only lets theorems speak about "offered on that connection". -/
+structure Ghost where
+  attempt : Nat := 0               -- number of accepted connect calls so far
+  offeredTls : Bool := false
+  offeredMechs : Nat := 0          -- mask of every mechanism name seen in a <mechanisms/> list
+  offeredBind : Bool := false
+  offeredSession : Bool := false
+  offeredSm : Bool := false
+  offeredComp : Bool := false
+  authOk : Bool := false           -- <success/> was processed
+  bound : Bool := false            -- the bind request was answered with type='result'
+  resumed : Bool := false          -- <resumed/> was accepted
+  handshakeAck : Bool := false
+  legacyOk : Bool := false
+  notifiedConnect : Bool := false  -- CONNECT / RAW_CONNECT delivered on this attempt
+  notifiedDisconnect : Nat := 0    -- DISCONNECT notifications on this attempt
+  deriving Repr, Inhabited
+
+/-- the facts the properties speak about, as they were when an element was QUEUED -/
+structure Snap where
+  mandatory : Bool := false        -- flags
+  tlsDisabled : Bool := false
+  authLegacy : Bool := false
+  isClient : Bool := true
+  cert : Bool := false
+  negotiated : Bool := false       -- stream negotiation completed
+  g : Ghost := {}                  -- offers / confirmations of the attempt so far
+  deriving Repr, Inhabited
+
+/-- one element that reached the wire -/
+structure TxRec where
+  item : Item
+  owner : Owner
+  sec : Bool                       -- written through an established TLS session
+  snap : Snap                      -- situation when it was queued
+  attemptW : Nat                   -- attempt during which it was written
+  deriving Repr, Inhabited
+
 structure QElem where
   item : Item
   owner : Owner
   wip : Bool := false
   linked : Bool := false      -- an `<r/>` whose userdata points to the element before it
   uid : Nat := 0
+  snap : Snap := {}
   deriving Repr, Inhabited
 
 inductive Accept | all | again | hard deriving Repr, DecidableEq
@@ -194,9 +234,10 @@ structure Conn where
   sched : List Accept := []
   schedDefault : Accept := .all
   -- observations of the current op
-  evs : List Ev := []
-  tx : List (Item × Bool) := []          -- written elements with "through TLS"
+  evs : List (Ghost × Ev) := []          -- (ghost record when it was delivered, notification)
+  tx : List TxRec := []
   crash : Option CrashSite := none
+  g : Ghost := {}
   deriving Repr, Inhabited
 
 /-! ### constants -/
@@ -207,7 +248,8 @@ def eTimedOut : Int := 110
 def xmppEInvOp : Int := -2
 def xmppEInt : Int := -3
 
-def b (s : String) : Bytes := s.toUTF8.toList
+/-- ASCII literal (kernel-reducible, unlike `String.toUTF8`) -/
+def b (s : String) : Bytes := s.toList.map fun c => UInt8.ofNat c.toNat
 
 def maskOf (name : String) : Nat :=
   match name with
@@ -276,7 +318,12 @@ def triggerSmCallback (c : Conn) : Conn :=
 
 /-! ### notifications, disconnect -/
 
-def notify (c : Conn) (e : Ev) : Conn := { c with evs := c.evs ++ [e] }
+def notify (c : Conn) (e : Ev) : Conn :=
+  let g := match e with
+    | .connect | .rawConnect => { c.g with notifiedConnect := true }
+    | .disconnect .. => { c.g with notifiedDisconnect := c.g.notifiedDisconnect + 1 }
+    | _ => c.g
+  { c with evs := c.evs ++ [(c.g, e)], g := g }
 
 /-- `conn_disconnect` -/
 def connDisconnect (c : Conn) : Conn :=
@@ -292,13 +339,14 @@ def connDisconnect (c : Conn) : Conn :=
 def pushRaw (c : Conn) (it : Item) (owner0 : Owner) : Conn :=
   -- library elements queued before SM is enabled belong to the negotiation: never counted
   let owner := if owner0 = .strophe && !c.sm.enabled then Owner.smStrophe else owner0
-  let c1 := { c with queue := c.queue ++ [{ item := it, owner := owner, uid := c.nextUid }], nextUid := c.nextUid + 1 }
+  let snap : Snap := { mandatory := c.tlsMandatory, tlsDisabled := c.tlsDisabled, authLegacy := c.authLegacy, isClient := c.ctype = .client, cert := c.cert, negotiated := c.negotiated, g := c.g }
+  let c1 := { c with queue := c.queue ++ [{ item := it, owner := owner, uid := c.nextUid, snap := snap }], nextUid := c.nextUid + 1 }
   if !owner.smBit && c1.sm.enabled && !c1.sm.rSent then
     -- send_raw(req_ack): refused unless CONNECTED
     let c2 := { c1 with sm := { c1.sm with rSent := true } }
     if c2.state = .connected then
       triggerSmCallback
-        { c2 with queue := c2.queue ++ [{ item := .req, owner := .smStrophe, linked := true, uid := c2.nextUid }], nextUid := c2.nextUid + 1 }
+        { c2 with queue := c2.queue ++ [{ item := .req, owner := .smStrophe, linked := true, uid := c2.nextUid, snap := snap }], nextUid := c2.nextUid + 1 }
     else c2
   else triggerSmCallback c1
 
@@ -497,8 +545,34 @@ def childTexts (parent : XTree) (name : Bytes) : List Bytes :=
   parent.children.filterMap fun ch =>
     if ch.name? = some name then ch.getText else none
 
+/-- mask bit of a mechanism name as offered (EXTERNAL counted whether or not a certificate is
+    configured) -/
+def mechBit (text : Bytes) : Nat :=
+  if ciEq text (b "PLAIN") then Gen.saslMaskPlain
+  else if ciEq text (b "EXTERNAL") then Gen.saslMaskExternal
+  else if ciEq text (b "DIGEST-MD5") then Gen.saslMaskDigestmd5
+  else if ciEq text (b "ANONYMOUS") then Gen.saslMaskAnonymous
+  else match Gen.scramAlgs.find? fun (n, _) => ciEq text n with
+    | some (_, m) => m
+    | none => 0
+
+/-- ghost: record what a `<stream:features/>` element offers -/
+def noteOffers (c : Conn) (st : XTree) : Conn :=
+  let g := c.g
+  let g := if (st.childByNameNs (b "starttls") Gen.nsTls).isSome then { g with offeredTls := true } else g
+  let g := match st.childByNameNs (b "mechanisms") Gen.nsSasl with
+    | some m => { g with offeredMechs := (childTexts m (b "mechanism")).foldl (fun a t => a ||| mechBit t) g.offeredMechs }
+    | none => g
+  let g := if (st.childByNameNs (b "bind") Gen.nsBind).isSome then { g with offeredBind := true } else g
+  let g := if (st.childByNameNs (b "session") Gen.nsSession).isSome then { g with offeredSession := true } else g
+  let g := if (st.childByNameNs (b "sm") Gen.nsSm).isSome then { g with offeredSm := true } else g
+  let g := if (st.childByNameNs (b "compression") (b "http://jabber.org/features/compress")).isSome
+    then { g with offeredComp := true } else g
+  { c with g := g }
+
 /-- `_handle_features` -/
 def handleFeatures (c : Conn) (st : XTree) : Conn :=
+  let c := noteOffers c st
   let c0 := delTimed c .missingFeatures
   let c1 :=
     if !c0.secured then
@@ -539,6 +613,7 @@ def sessionStart (c : Conn) : Conn :=
 
 /-- `_handle_features_sasl` -/
 def handleFeaturesSasl (c : Conn) (st : XTree) : Conn :=
+  let c := noteOffers c st
   let c0 := delTimed c .missingFeaturesSasl
   let hasBind := (st.childByNameNs (b "bind") Gen.nsBind).isSome
   let c1 := { c0 with bindRequired := hasBind }
@@ -564,6 +639,7 @@ def compressionOffer (c : Conn) (st : XTree) : Conn :=
 
 /-- `_handle_features_compress` -/
 def handleFeaturesCompress (c : Conn) (st : XTree) : Conn :=
+  let c := noteOffers c st
   let c0 := delTimed c .missingFeatures
   let c1 := compressionOffer c0 st
   if c1.compSupported then
@@ -576,6 +652,7 @@ def handleSaslResult (c : Conn) (st : XTree) : Conn :=
   let name := st.name?.getD []
   if name = b "failure" then authTop c
   else if name = b "success" then
+    let c := { c with g := { c.g with authOk := true } }
     connOpenStream (prepareReset c (if c.compAllowed then .openCompress else .openSasl))
   else xmppDisconnect c
 
@@ -614,6 +691,8 @@ def smQueueResend (c : Conn) : Conn :=
 def handleSm (c : Conn) (st : XTree) : Conn :=
   let name := st.name?.getD []
   if name = b "enabled" then
+    -- an <enabled/> that does not answer <enable/> is a protocol error
+    if !c.sm.enabled then { c with sm := { c.sm with enabled := false } } else
     let c1 := { c with sm := { c.sm with handledNr := 0 } }
     match st.attr (b "resume") with
     | some _ =>
@@ -627,7 +706,7 @@ def handleSm (c : Conn) (st : XTree) : Conn :=
     | none => triggerSmCallback (negotiationSuccess (smQueueResend c1))
   else if name = b "resumed" then
     match c.sm.previd with
-    | none => { c with crash := c.crash <|> some .resumedNullPrevid }
+    | none => { c with sm := { c.sm with enabled := false } }     -- no resumption was requested
     | some ours =>
       if st.attr (b "previd") ≠ some ours then { c with sm := { c.sm with enabled := false } }
       else match getH st with
@@ -637,9 +716,10 @@ def handleSm (c : Conn) (st : XTree) : Conn :=
           let sent : UInt32 := match q with
             | e :: _ => e.1
             | [] => UInt32.ofNat h
-          let c1 := { c with sm := { c.sm with enabled := true, id := c.sm.previd, previd := none, boundJid := none, sentNr := sent, queue := q }, boundJid := c.sm.boundJid }
+          let c1 := { c with sm := { c.sm with enabled := true, id := c.sm.previd, previd := none, boundJid := none, sentNr := sent, queue := q }, boundJid := c.sm.boundJid, g := { c.g with resumed := true } }
           triggerSmCallback (negotiationSuccess (smQueueResend c1))
   else if name = b "failed" then
+    let wasResume := c.sm.resume
     let c1 := { c with sm := { c.sm with enabled := false } }
     match st.childByNs Gen.nsStanzasIetf with
     | none => c1
@@ -658,6 +738,7 @@ def handleSm (c : Conn) (st : XTree) : Conn :=
       let c3 := { c2 with sm := resetSmState c2.sm }
       -- a failed resumption re-binds; a refused <enable/> completes the negotiation without SM
       if hadBind then triggerSmCallback (doBind c3)
+      else if wasResume then triggerSmCallback (xmppDisconnect c3)   -- nothing to fall back to
       else if !c3.negotiated then triggerSmCallback (negotiationSuccess c3)
       else triggerSmCallback c3
   else { c with sm := { c.sm with enabled := false } }
@@ -674,6 +755,7 @@ def handleBind (c : Conn) (st : XTree) : Conn :=
           | some j => j.getText
           | none => none
         | none => none
+      let c0 := { c0 with g := { c0.g with bound := true } }
       let c1 := match st.childByName (b "bind") with
         | some bnd => if (bnd.childByName (b "jid")).isSome then { c0 with boundJid := bj } else c0
         | none => c0
@@ -702,7 +784,7 @@ def handleLegacy (c : Conn) (st : XTree) : Conn :=
   | some t =>
     if st.name? ≠ some (b "iq") then xmppDisconnect c0
     else if t = b "error" then xmppDisconnect c0
-    else if t = b "result" then negotiationSuccess c0
+    else if t = b "result" then negotiationSuccess { c0 with g := { c0.g with legacyOk := true } }
     else xmppDisconnect c0
 
 /-- `_handle_error`: (condition index, text) -/
@@ -756,7 +838,8 @@ def runSys (c : Conn) (h : SysH) (st : XTree) : Conn × Bool :=
     else (c, false)
   | .componentHs =>
     let c0 := delTimed c .missingHandshake
-    if st.name? ≠ some (b "handshake") then (xmppDisconnect c0, true) else (negotiationSuccess c0, false)
+    if st.name? ≠ some (b "handshake") then (xmppDisconnect c0, true)
+    else (negotiationSuccess { c0 with g := { c0.g with handshakeAck := true } }, false)
   | .bind => (handleBind c st, false)
   | .session => (handleSession c st, false)
   | .legacy => (handleLegacy c st, false)
@@ -778,59 +861,39 @@ def hMatches (h : Handler) (st : XTree) : Bool :=
    | none => true
    | some t => st.attr (b "type") = some t)
 
-/-- the element after `uid` in a list (the C code reads `item->next` after the call) -/
-def nextAfter (l : List Handler) (uid : Nat) : Option Nat :=
-  match l.dropWhile (·.uid ≠ uid) with
-  | _ :: n :: _ => some n.uid
-  | _ => none
+/-- One visit of the `while (item)` loop over `conn->handlers`.  The loop walks `item->next`
+    (re-read after every call); handlers added during the dispatch are appended disabled and are
+    skipped, handlers deleted by an earlier handler are not reached: that is the same as visiting
+    the handlers present at the start, in order, and skipping those no longer present. -/
+def fireOne (st : XTree) (c : Conn) (uid : Nat) : Conn :=
+  match c.handlers.find? (·.uid = uid) with
+  | none => c
+  | some h =>
+    if (h.user && !c.negotiated) || !h.enabled then c
+    else if hMatches h st then
+      let (c1, keep) := runHandler c h st
+      if keep then c1 else { c1 with handlers := c1.handlers.filter (·.uid ≠ uid) }
+    else c
 
-/-- the `while (item)` loop over `conn->handlers` -/
-def fireList (c : Conn) (st : XTree) (cur : Option Nat) : Nat → Conn
-  | 0 => c
-  | fuel + 1 =>
-    match cur with
-    | none => c
-    | some uid =>
-      match c.handlers.find? (·.uid = uid) with
-      | none => c
-      | some h =>
-        if (h.user && !c.negotiated) || !h.enabled then fireList c st (nextAfter c.handlers uid) fuel
-        else if hMatches h st then
-          let (c1, keep) := runHandler c h st
-          let nxt := nextAfter c1.handlers uid
-          let c2 := if keep then c1 else { c1 with handlers := c1.handlers.filter (·.uid ≠ uid) }
-          fireList c2 st nxt fuel
-        else fireList c st (nextAfter c.handlers uid) fuel
-
-/-- the id-handler loop for one id -/
-def fireIdList (c : Conn) (st : XTree) (id : Bytes) (cur : Option Nat) : Nat → Conn
-  | 0 => c
-  | fuel + 1 =>
-    match cur with
-    | none => c
-    | some uid =>
-      let lst := c.idHandlers.filter (·.id = some id)
-      match lst.find? (·.uid = uid) with
-      | none => c
-      | some h =>
-        if (h.user && !c.negotiated) || !h.enabled then fireIdList c st id (nextAfter lst uid) fuel
-        else
-          let (c1, keep) := runHandler c h st
-          let lst1 := c1.idHandlers.filter (·.id = some id)
-          let nxt := nextAfter lst1 uid
-          let c2 := if keep then c1 else { c1 with idHandlers := c1.idHandlers.filter (·.uid ≠ uid) }
-          fireIdList c2 st id nxt fuel
+/-- one visit of the id-handler loop -/
+def fireIdOne (st : XTree) (c : Conn) (uid : Nat) : Conn :=
+  match c.idHandlers.find? (·.uid = uid) with
+  | none => c
+  | some h =>
+    if (h.user && !c.negotiated) || !h.enabled then c
+    else
+      let (c1, keep) := runHandler c h st
+      if keep then c1 else { c1 with idHandlers := c1.idHandlers.filter (·.uid ≠ uid) }
 
 /-- `handler_fire_stanza` -/
 def fireStanza (c : Conn) (st : XTree) : Conn :=
   let c1 : Conn := match st.attr (b "id") with
     | some id =>
       let c0 : Conn := { c with idHandlers := c.idHandlers.map fun (h : Handler) => if h.id = some id then { h with enabled := true } else h }
-      let lst := c0.idHandlers.filter (·.id = some id)
-      fireIdList c0 st id (lst.head?.map (·.uid)) (lst.length + 1)
+      ((c0.idHandlers.filter (·.id = some id)).map (·.uid)).foldl (fireIdOne st) c0
     | none => c
   let c2 : Conn := { c1 with handlers := c1.handlers.map fun (h : Handler) => { h with enabled := true } }
-  fireList c2 st (c2.handlers.head?.map (·.uid)) (c2.handlers.length + 1)
+  (c2.handlers.map (·.uid)).foldl (fireOne st) c2
 
 /-- `_conn_sm_handle_stanza` -/
 def smHandleStanza (c : Conn) (st : XTree) : Conn :=
@@ -927,59 +990,48 @@ def runTimed (c : Conn) (f : TFun) : Conn × Bool :=
   | .disconnectCleanup => (connDisconnect c, false)
   | .userTimed => (notify c .userTimed, true)
 
-def nextAfterT (l : List Timed) (uid : Nat) : Option Nat :=
-  match l.dropWhile (·.uid ≠ uid) with
-  | _ :: n :: _ => some n.uid
-  | _ => none
-
-def fireTimedList (c : Conn) (cur : Option Nat) : Nat → Conn
-  | 0 => c
-  | fuel + 1 =>
-    match cur with
-    | none => c
-    | some uid =>
-      match c.timed.find? (·.uid = uid) with
-      | none => c
-      | some t =>
-        if (t.user && !c.negotiated) || !t.enabled then fireTimedList c (nextAfterT c.timed uid) fuel
-        else if c.now - t.lastStamp ≥ t.period then
-          let c0 := { c with timed := c.timed.map fun x => if x.uid = uid then { x with lastStamp := c.now } else x }
-          let (c1, keep) := runTimed c0 t.fn
-          let nxt := nextAfterT c1.timed uid
-          let c2 := if keep then c1 else { c1 with timed := c1.timed.filter (·.uid ≠ uid) }
-          fireTimedList c2 nxt fuel
-        else fireTimedList c (nextAfterT c.timed uid) fuel
+/-- one visit of the timed-handler loop (handlers added meanwhile are prepended: never reached) -/
+def fireTimedOne (c : Conn) (uid : Nat) : Conn :=
+  match c.timed.find? (·.uid = uid) with
+  | none => c
+  | some t =>
+    if (t.user && !c.negotiated) || !t.enabled then c
+    else if c.now - t.lastStamp ≥ t.period then
+      let c0 : Conn := { c with timed := c.timed.map fun (x : Timed) => if x.uid = uid then { x with lastStamp := c.now } else x }
+      let (c1, keep) := runTimed c0 t.fn
+      if keep then c1 else { c1 with timed := c1.timed.filter (·.uid ≠ uid) }
+    else c
 
 /-- `handler_fire_timed` for this connection (context-wide handlers are not used here) -/
 def fireTimed (c : Conn) : Conn :=
   if c.state ≠ .connected then c
   else
-    let c1 := { c with timed := c.timed.map fun t => { t with enabled := true } }
-    fireTimedList c1 (c1.timed.head?.map (·.uid)) (c1.timed.length + 1)
+    let c1 : Conn := { c with timed := c.timed.map fun (t : Timed) => { t with enabled := true } }
+    (c1.timed.map (·.uid)).foldl fireTimedOne c1
 
 /-! ### the event loop (event.c `xmpp_run_once`) -/
 
 /-- bookkeeping for one completely written element -/
 def retire (c : Conn) (e : QElem) : Conn :=
-  let c1 := { c with tx := c.tx ++ [(e.item, c.hasTls)] }
+  let c1 := { c with tx := c.tx ++ [{ item := e.item, owner := e.owner, sec := c.hasTls, snap := e.snap, attemptW := c.g.attempt }] }
   if !e.owner.smBit && c1.sm.enabled then
     triggerSmCallback { c1 with sm := { c1.sm with queue := c1.sm.queue ++ [(c1.sm.sentNr, e)], sentNr := c1.sm.sentNr + 1 } }
   else triggerSmCallback c1
 
-/-- the write loop, element-wise: `all` completes an element, `again` / `hard` stop -/
-def writeLoop (c : Conn) : Nat → Conn
-  | 0 => c
-  | fuel + 1 =>
-    match c.queue with
-    | [] => c
-    | e :: q =>
-      let (a, sched') := match c.sched with
-        | a :: r => (a, r)
-        | [] => (c.schedDefault, [])
-      match a with
-      | .all => writeLoop (retire { c with queue := q, sched := sched' } e) fuel
-      | .again => { c with queue := { e with wip := true } :: q, sched := sched' }
-      | .hard => { c with queue := { e with wip := true } :: q, sched := sched', error := eConnReset }
+/-- the write loop, element-wise, over the elements queued when it starts (nothing is queued by
+    the loop itself): `all` completes an element, `again` / `hard` stop -/
+def writeElems (c : Conn) : List QElem → Conn
+  | [] => { c with queue := [] }
+  | e :: q =>
+    let (a, sched') := match c.sched with
+      | a :: r => (a, r)
+      | [] => (c.schedDefault, [])
+    match a with
+    | .all => writeElems (retire { c with queue := q, sched := sched' } e) q
+    | .again => { c with queue := { e with wip := true } :: q, sched := sched' }
+    | .hard => { c with queue := { e with wip := true } :: q, sched := sched', error := eConnReset }
+
+def writeLoop (c : Conn) : Conn := writeElems c c.queue
 
 /-- `conn_established` -/
 def connEstablished (c : Conn) : Conn :=
@@ -1003,7 +1055,7 @@ def runOnce (c : Conn) (rx : Rx) : Conn :=
   -- send queued data
   let c1 :=
     if c.state = .connected then
-      let w := writeLoop c (c.queue.length + 1)
+      let w := writeLoop c
       if w.error ≠ 0 then connDisconnect { w with error := eConnAborted } else w
     else c
   -- reset parsers if needed
@@ -1075,7 +1127,8 @@ def connConnect (c : Conn) (domain : Bytes) (t : CType) : Conn × Int :=
     if c1.tcpFail then (c1, xmppEInt)
     else
       let oh := if c1.isRaw then OpenH.stub else if t = .client then .open_ else .componentOpen
-      ({ (prepareReset c1 oh) with state := .connecting, timeoutStamp := c1.now }, 0)
+      ({ (prepareReset c1 oh) with state := .connecting, timeoutStamp := c1.now,
+                                   g := { attempt := c1.g.attempt + 1 } }, 0)
 
 /-- `xmpp_connect_client` (the harness passes no alternative host) -/
 def connectClient (c : Conn) : Conn × Int :=
